@@ -138,6 +138,16 @@ func (c *Ctx) N(quick, thorough int) int {
 	return n
 }
 
+// NConc is N for the sizes of CONCURRENT workloads: not scaled down in the slow build variants (the race detector's build
+// is where they matter most).
+func (c *Ctx) NConc(quick, thorough int) int {
+	if c.Thorough() {
+		return thorough
+	}
+
+	return quick
+}
+
 // SharedRng returns a stream that is identical in every shard (for building shared pools and structured lists).
 func (c *Ctx) SharedRng(name string) *gen.Rng { return gen.New(c.Seed, c.Prop.ID+"/shared/"+name) }
 
